@@ -303,7 +303,11 @@ def build_queries(ctx, rng):
         add(c, "false", [k], [str(k)])
     for n in range(ctx.budget(60, 600)):
         ws = [log_of(rng.choice(grid)) for _ in range(rng.randrange(0, 5))]
-        add(c, "ad_complement", [ws, 7], ["(" + " ".join(L.wire(w) for w in ws) + ")", "7"])
+        # boundary variants (all weights nudged down / up): when the sum of the weights sits on the 1 +- 1e-12 threshold
+        # of the complement, float rounding decides between a value and InvalidValue
+        varis = [["(" + " ".join(lvar(w)[j] for w in ws) + ")", "7"] for j in (0, 1)] + \
+                [["(" + " ".join(su.fbits(w + d) for w in ws) + ")", "7"] for d in (-3e-12, 3e-12)]
+        add(c, "ad_complement", [ws, 7], ["(" + " ".join(L.wire(w) for w in ws) + ")", "7"], varis if ws else None)
 
     # ---- MPE / MinPE: (probability, set of literals)
     for c in ("SemiringMPEState", "SemiringMinPEState"):
